@@ -1,5 +1,6 @@
 import NbioVerif.Lemmas.C11Own
 import NbioVerif.Lemmas.C11Body
+import NbioVerif.Lemmas.C11Conn
 /-! C11 pooled-buffer ownership, HTTP side — property theorems over the length-abstracted twins `Own`
 (nbhttp/response.go + releaseResponse; body.go and the parser cache in `OwnBody`). -/
 namespace Own
@@ -127,3 +128,41 @@ example :
     s.heap.bad = none ∧ s.closed = true ∧ s.heap.trace.length = 11 := by decide
 
 end Own
+
+/-! ## core connection: the write queue -/
+namespace OwnC
+
+/-- **C11 (core Conn write queue), freed at most once / never used after free / never shared.** For EVERY
+sequence of Write, Writev, Sendfile, flush (writable events) and Close on a connection, every kernel
+answer to every syscall (short writes of any length, EAGAIN, EINTR, fatal errors; an exhausted script is
+EAGAIN), any allocator capacities and any write-buffer limit: the heap never flags, every buffer in the
+write list is live and no buffer is queued twice.  (Covers newToWriteBuf's merge-with-growth path —
+Malloc, copy, Free of the old tail, Append —, release on complete flush, and the release of the whole
+backlog by closeWithErrorWithoutLock after a fatal error, an overflow or Close.) -/
+theorem c11_conn_write_queue (capOf : Nat → Nat) (maxWB : Nat) (ops : List COp) :
+    let s := crun capOf maxWB {} ops
+    s.heap.bad = none ∧ (∀ id ∈ cids s.wl, s.heap.live id = true) ∧ (cids s.wl).Nodup := by
+  intro s
+  have h := crun_inv capOf maxWB ops {} cinv_init
+  exact ⟨h.ok, h.bl, h.nd⟩
+
+/-- after Close (or any fatal error) the queue holds nothing -/
+theorem c11_conn_close_releases (capOf : Nat → Nat) (maxWB : Nat) (ops : List COp)
+    (hopen : (crun capOf maxWB {} ops).closed = false) :
+    (close (crun capOf maxWB {} ops)).wl = [] ∧ (close (crun capOf maxWB {} ops)).heap.bad = none := by
+  have h := close_inv _ (crun_inv capOf maxWB ops {} cinv_init)
+  refine ⟨?_, h.ok⟩
+  unfold close
+  rw [if_neg (by simp [hopen])]
+  rfl
+
+/-- non-vacuity: a backlog that is merged with growth, partly flushed, and released by a fatal error -/
+example :
+    let capOf := fun n => max 64 ((n + 63) / 64 * 64)
+    let s := crun capOf 0 {} [.write 100 .eagain, .write 3000 .eagain, .write 70000 .eagain,
+                               .flush [.wrote 1000], .flush [.fail]]
+    s.heap.bad = none ∧ s.closed = true ∧ s.wl = [] ∧
+      s.heap.trace.reverse = [.write none, .malloc 1 100, .malloc 2 3100, .free 1, .append 2, .malloc 3 70000,
+        .write (some 2), .write (some 2), .write (some 2), .free 2, .free 3] := by decide
+
+end OwnC
